@@ -254,6 +254,24 @@ func c08rtGen(cfg config, emit func(Case)) {
 	}
 }
 
+// c11rtGen (C11): only the server scenario in which a session ends with a request outstanding and the same id
+// connects again: nothing of the old session -- its timeout least of all -- may touch the new session's request.
+func c11rtGen(cfg config, emit func(Case)) {
+	rng := rand.New(rand.NewSource(cfg.seed*37 + 5))
+	rounds := 2
+	if cfg.thorough {
+		rounds = 10
+	}
+	for r := 0; r < rounds; r++ {
+		for variant := int64(0); variant < 2; variant++ {
+			jit := int64(rng.Intn(25))
+			emit(Case{Class: fmt.Sprintf("server-v%d-session-end-reconnect", variant), Input: rtServer(variant, 2, jit), Obs: []int64{1},
+				Comment: fmt.Sprintf("server variant %d: request outstanding, session ends, same id reconnects, new request; jitter %d", variant, jit)})
+		}
+	}
+}
+
 func init() {
+	properties["c11rt"] = []*Entry{{Name: "c11rt", Eval: func(in []int64) []int64 { return []int64{1} }, Gen: c11rtGen}}
 	properties["c08rt"] = []*Entry{{Name: "c08rt", Eval: func(in []int64) []int64 { return []int64{1} }, Gen: c08rtGen}}
 }
